@@ -232,13 +232,6 @@ func (h *Handler) commit() error {
 			h.tempFile.fp = nil
 		}
 
-		if Exists(h.path) {
-			verifPoint("h.commit.remove", h.path)
-			if err := os.Remove(h.path); err != nil {
-				return err
-			}
-		}
-
 		verifPoint("h.commit.rename", h.path)
 		if err := os.Rename(h.tempFile.path, h.path); err != nil {
 			return err
